@@ -71,6 +71,7 @@ Definition ev_dyn (e : ev) : dyn :=
   | ESocketFail a => DTuple [DInt 2; DInt a]
   | ESetopt s o => DTuple [DInt 3; DInt s; DInt o]
   | EWrap s w => DTuple [DInt 4; DInt s; DInt w]
+  | EWrapFail s => DTuple [DInt 4; DInt s; DInt (-1)]
   | ETimeout s w => DTuple [DInt 5; DInt s; DInt w]
   | EConnect s a => DTuple [DInt 6; DInt s; DInt a]
   | ESend s b => DTuple [DInt 7; DInt s; DBytes b]
